@@ -213,7 +213,7 @@ def prepare(sc):
         elif u.get('datum') == 'inline':
             kw['datum'] = PlutusData()
         out = TransactionOutput(addr, amount, **kw)
-        x = UTxO(TransactionInput(TransactionId(H(u['txid'])), u['ix']), out)
+        x = wire(UTxO(TransactionInput(TransactionId(H(u['txid'])), u['ix']), out))
         utxos.append(x)
         by_addr.setdefault(str(addr), []).append(x)
     ctx = long_lived(Ctx, by_addr)
